@@ -3,7 +3,7 @@ package specs
 import "verifharness/fw"
 
 func init() {
-	fw.Reg(&fw.Spec{ID: "C20", Level: "exploration", Quick: 3000, Thorough: 60000,
+	fw.Reg(&fw.Spec{ID: "C20", Level: "exploration", Quick: 3000, Thorough: 150000,
 		Rule: "generated multi-rule (2-4 rules), multi-line rule texts with random blank lines, comment lines, trailing comments, mixed indentation, " +
 			"statements spread over several lines, string literals spanning lines, LF or CRLF line ends, healthy rules before and after; exactly one faulty " +
 			"construct whose own text sits on one known line L. Fault classes: arithmetic (type faults, division by literal/injected/float zero, nested, " +
